@@ -438,7 +438,9 @@ theorem loop_inv (rest : Bytes) : ∀ (seg pre : Bytes) (x : Nat) (c : O40) (slc
 
 end Loop
 
-/-- the whole scan, from the initial state as it appears in the generated text (`L` is the value of the loop) -/
+/-- the whole scan, from the initial state as it appears in the generated text (`L` is the value of the loop).
+    Since the repair of finding F4 `ParseVector` only enters the loop when the first byte is `/` (or there is none),
+    so the second conjunct (the loop's own leading-`/` test fires) describes code that is no longer reachable. -/
 theorem scan40 (v : Bytes) (x : Nat) (rest : Bytes) (hv : v = x :: rest) (fuel : Nat) (st : St4)
     (cnd : St4 → Bool) (post : St4 → St4) (L : Go.Loop St4 R4)
     (hL : Go.forN fuel st cnd post (GenP40.ParseVector_for1 v) = L)
@@ -462,20 +464,34 @@ def dec40 : T9 → O40 | (a, b, c, d, e, f, g, h, i) => ⟨a, b, c, d, e, f, g, 
 theorem genParse40 (s : Bytes) : ofGo dec40 (GenP40.ParseVector s) = parse40 s := by
   unfold GenP40.ParseVector parse40
   simp only [GenV40.const_header, ← hasPrefix_eq, List.length_cons, List.length_nil, Nat.zero_add, Nat.reduceAdd]
-  split
-  · rename_i h
-    have hlen : 8 ≤ s.length := by simpa using length_le_of_hasPrefix h
-    simp only [h, Bool.not_true, cond_false]
-    rw [sliceFrom_ok _ hlen]
+  by_cases h : Go.hasPrefix s [67, 86, 83, 83, 58, 52, 46, 48] = true
+  · have hlen : 8 ≤ s.length := by simpa using length_le_of_hasPrefix h
+    simp only [h, Bool.not_true, cond_false, if_true]
     cases hd : List.drop 8 s with
-    | nil => rfl
+    | nil =>
+      -- the bare header: the separator test is skipped (`len(vector) > len(header)` is false), the loop never runs
+      have hl : s.length ≤ 8 := by simpa using hd
+      rw [blt_false hl]
+      simp only [cond_false]
+      rw [sliceFrom_ok _ hlen, hd]
+      rfl
     | cons x rest =>
-      simp only []
-      generalize hL : Go.forN _ _ _ _ (GenP40.ParseVector_for1 _) = L
-      obtain ⟨H1, H2⟩ := scan40 (x :: rest) x rest rfl _ _ _ _ L hL rfl
-        (by intro i cut s o c; rfl) (by intro i cut s o c; rfl) (by simp only [Nat.add_eq]; omega)
+      have hl : 8 < s.length := by
+        have := congrArg List.length hd
+        simp at this; omega
+      have hx8 : s[8]? = some x := by
+        have := congrArg List.head? hd
+        simpa [List.head?_drop] using this
+      rw [blt_true hl]
+      simp only [cond_true]
+      rw [index_some hx8]
       by_cases hx : x = 47
-      · have H := H1 hx
+      · simp only [beq_true hx, Bool.not_true, cond_false]
+        rw [sliceFrom_ok _ hlen, hd]
+        generalize hL : Go.forN _ _ _ _ (GenP40.ParseVector_for1 _) = L
+        obtain ⟨H1, _⟩ := scan40 (x :: rest) x rest rfl _ _ _ _ L hL rfl
+          (by intro i cut s o c; rfl) (by intro i cut s o c; rfl) (by simp only [Nat.add_eq]; omega)
+        have H := H1 hx
         rw [loop4_eq]
         simp only [hx, if_true]
         cases hr : loop4' O40.set (splitSlash rest) O40.zero (flatOrder GenV40.tbl_order) with
@@ -495,10 +511,9 @@ theorem genParse40 (s : Bytes) : ofGo dec40 (GenP40.ParseVector s) = parse40 s :
           · obtain ⟨u0, u1, u2, u3, u4, u5, u6, u7, u8⟩ := c'
             rfl
           · rfl
-      · rw [H2 hx]
+      · -- the header followed by a byte other than the separator: ErrInvalidCVSSHeader
         have hx' : ¬ x = SLASH := hx
-        simp [hx', ofGo]
-  · rename_i h
-    simp [h, ofGo, eHeader]
+        simp [beq_false hx, hx', ofGo, eHeader]
+  · simp [h, ofGo, eHeader]
 
 end GenParse40
